@@ -22,6 +22,7 @@ import (
 	"io/fs"
 	"net"
 	"net/http"
+	"runtime"
 	"sort"
 	"strings"
 	"sync"
@@ -428,7 +429,23 @@ func vpC25IsTimeout(err error) bool {
 	return errors.As(err, &ne) && ne.Timeout()
 }
 
+var vpC25Warm sync.Once
+
 func vpC25Case(t *rapid.T) {
+	// start the process-wide background goroutines (server date updater, gzip workers) before counting
+	vpC25Warm.Do(func() {
+		_ = AppendGzipBytes(nil, bytes.Repeat([]byte("warm up "), 100))
+		s := &Server{Handler: func(ctx *RequestCtx) {}, Logger: vpC25NopLogger{}}
+		cc, sc := net.Pipe()
+		go func() {
+			_, _ = cc.Write([]byte("GET / HTTP/1.1\r\nHost: h\r\n\r\n"))
+			_, _ = bufio.NewReader(cc).ReadString('\n')
+			cc.Close()
+		}()
+		_ = s.ServeConn(sc)
+		time.Sleep(5 * time.Millisecond)
+	})
+	goroutines0 := runtime.NumGoroutine()
 	cacheMs := rapid.IntRange(10, 40).Draw(t, "cache_ms")
 	skip := rapid.IntRange(0, 5).Draw(t, "skipcache") == 0
 	compress := rapid.IntRange(0, 2).Draw(t, "compress") == 0
@@ -463,18 +480,23 @@ func vpC25Case(t *rapid.T) {
 		t.Fatalf("VP-INCONCLUSIVE: a client or ServeConn did not finish within 60 s")
 	}
 	// the cache manager reacts to CleanStop on its own goroutine: no timer is involved, so this only waits
-	// for that goroutine to be scheduled (generous bound: nominal is microseconds)
-	deadline := time.Now().Add(30 * time.Second)
-	for {
+	// for that goroutine to be scheduled (generous bound: nominal is microseconds). Once the goroutine count is
+	// back to what it was before the FS was created, the manager's goroutine has exited and nothing more will
+	// be closed, so a leak is reported without sitting out the bound.
+	countOpen := func() int {
 		w.mu.Lock()
+		defer w.mu.Unlock()
 		open := 0
 		for _, o := range w.objs {
 			if o.closes == 0 {
 				open++
 			}
 		}
-		w.mu.Unlock()
-		if open == 0 || time.Now().After(deadline) {
+		return open
+	}
+	deadline := time.Now().Add(10 * time.Second)
+	for countOpen() > 0 && time.Now().Before(deadline) {
+		if runtime.NumGoroutine() <= goroutines0 {
 			break
 		}
 		time.Sleep(200 * time.Microsecond)
